@@ -8,7 +8,7 @@
           2 the property fails on the observation (see [j2]); 3 osm.CommitInfoStart at run time differs
           from the time.Date literal in the source (translator); 0 did not parse. *)
 From Coq Require Import ZArith List Bool.
-From Verif Require Import Base.Wire Annotate.Model Annotate.Case Annotate.GenOk C11.Spec.
+From Verif Require Import Base.Wire Annotate.Model Annotate.Case Annotate.GenConst C11.Spec.
 Import ListNotations.
 Open Scope Z_scope.
 Open Scope wire_scope.
